@@ -30,6 +30,29 @@ import (
 type variant struct {
 	name string
 	msg  sdk.Msg
+	// derived: a payload obtained by zeroing one field; it need not be acceptable to the governance authority,
+	// but a non-governance authority must still be refused without any state change
+	derived bool
+}
+
+// zeroed returns one copy of m per top-level field other than the authority, with that field set to its zero value.
+func zeroed(v variant) []variant {
+	var out []variant
+	t := reflect.TypeOf(v.msg).Elem()
+	for i := 0; i < t.NumField(); i++ {
+		f := t.Field(i)
+		if f.Name == "Authority" || !f.IsExported() || strings.HasPrefix(f.Name, "XXX_") {
+			continue
+		}
+		if reflect.ValueOf(v.msg).Elem().Field(i).IsZero() {
+			continue
+		}
+		c := reflect.New(t)
+		c.Elem().Set(reflect.ValueOf(v.msg).Elem())
+		c.Elem().Field(i).Set(reflect.Zero(f.Type))
+		out = append(out, variant{name: v.name + "[" + f.Name + "=zero]", msg: c.Interface().(sdk.Msg), derived: true})
+	}
+	return out
 }
 
 // payloads returns hand-built payloads that the governance authority gets accepted, per message type url.
@@ -37,7 +60,7 @@ func payloads(w *world.World, ctx sdk.Context, tokenERC20 string) map[string][]v
 	out := map[string][]variant{}
 	add := func(name string, m sdk.Msg) {
 		u := sdk.MsgTypeURL(m)
-		out[u] = append(out[u], variant{name, m})
+		out[u] = append(out[u], variant{name: name, msg: m})
 	}
 	for _, ch := range scen.AllChains {
 		p := scen.Keeper(w, ch).GetParams(ctx)
@@ -140,8 +163,11 @@ func run(thorough bool) func(shard, shards int, deadline time.Time) *explore.Res
 			vs := built[u]
 			if len(vs) == 0 {
 				m, _ := w.App.InterfaceRegistry().Resolve(u)
-				vs = []variant{{"zero-payload", m.(sdk.Msg)}}
+				vs = []variant{{name: "zero-payload", msg: m.(sdk.Msg)}}
 				res.Counters["types-with-generic-payload-only"]++
+			}
+			for _, v := range append([]variant(nil), vs...) {
+				vs = append(vs, zeroed(v)...)
 			}
 			for _, v := range vs {
 				// control: the governance authority gets this payload accepted (else the rejection below is vacuous)
@@ -156,7 +182,7 @@ func run(thorough bool) func(shard, shards int, deadline time.Time) *explore.Res
 					if w.Digest(cctx) == w.Digest(ctx) {
 						res.Counters["accepted-payload-without-state-change"]++
 					}
-				} else if len(built[u]) > 0 {
+				} else if len(built[u]) > 0 && !v.derived {
 					viol("C16/harness/control-payload-rejected/"+v.name, "harness", fmt.Sprintf("%s with the governance authority: %s", v.name, cr), v.name)
 				}
 				for _, k := range wn {
@@ -175,7 +201,11 @@ func run(thorough bool) func(shard, shards int, deadline time.Time) *explore.Res
 						continue
 					}
 					res.Outcomes[fmt.Sprintf("wrong-authority/accepted=%v", r.OK())]++
-					if r.OK() || r.Panic != nil {
+					if r.Panic != nil && !r.OK() {
+						res.Outcomes["wrong-authority/panic-before-any-effect"]++ // hostile payloads are C20's subject; nothing was written
+						continue
+					}
+					if r.OK() {
 						viol("C16/privileged-message-accepted-from-non-governance-authority/"+u, "only-governance-authority", fmt.Sprintf("%s -> %s", name, r), name)
 						continue
 					}
